@@ -1,17 +1,57 @@
 (* C01 - per-variant aggregates equal the exact sample statistics on every backend.
-   What is proved here, for ALL tables and groups: the arithmetic of each of the three query plans built by aggr.py
-   yields the unbiased sample (co)variance of the group's rows; the plans are two-pass (only deviations from the group
-   mean are multiplied, and those are independent of any common offset of the data); group statistics do not depend on
-   the rows of other groups.  The plans themselves (model/ReadPlan.plan_of_spec) are tied to the REAL builders by plan
-   capture (tools/plans.py, equality checked by vm_compute).
+   What is proved here, for ALL requests, tables and groups: the DENOTATION (lib/PlanSem.v: with_columns / window mean
+   over the partition / GROUP BY aggregation as a dataframe or SQL engine evaluates them) of each of the three query plans
+   built by aggr.py is one row per group carrying the exact count, means, unbiased variances and covariances of that
+   group's rows (proofs/C01_denote.v), under the naming hypotheses the proof forces (data columns are not named like
+   aliases; covariance aliases do not collide - the known finding); the plans are two-pass (only deviations from the
+   group mean are multiplied, independent of any common offset); group statistics do not depend on other groups' rows.
+   The plans themselves (model/ReadPlan.plan_of_spec) are tied to the REAL builders by plan capture (tools/plans.py,
+   equality checked by vm_compute).
    Named partial - validated on the five executable backends against exact rationals, not proved:
-     C01_plan_denotation_partial : the engines evaluate a plan as the plan language reads it (window mean over the
-                                   partition, GROUP BY, one output row per variant);
+     C01_engine_partial          : that each engine evaluates a plan as lib/PlanSem.v reads it;
      C01_error_bound_partial     : the floating-point error bound (small multiple of eps x conditioning). *)
 From Coq Require Import Reals String List Lra.
-From TT Require Import lib.Stats proofs.C01_plans.
+From TT Require Import lib.Stats lib.Plan lib.PlanSem model.ReadPlan proofs.C01_plans proofs.C01_denote.
 Import ListNotations.
 Local Open Scope R_scope.
+
+(* ---------- the denotation of every builder's plan ---------- *)
+Section Denotation.
+Variables (q : request) (g : option string) (tbl : table).
+Hypothesis fresh : forall c, data_col q g c ->
+  (forall x, String.eqb c (a_demean x) = false) /\ (forall x, String.eqb c (a_var x) = false) /\
+  (forall p, String.eqb c (a_cov p) = false) /\ (forall x, String.eqb c (a_mean x) = false) /\ String.eqb c a_count = false.
+Hypothesis cov_alias_inj : forall p p', In p (r_cov q) -> In p' (r_cov q) -> a_cov p = a_cov p' -> p = p'.
+Hypothesis var_in_covar : forall c, In c (r_var q) -> In c (r_covar q).
+Hypothesis cov_in_covar : forall p, In p (r_cov q) -> In (fst p) (r_covar q) /\ In (snd p) (r_covar q).
+
+(* does the plan of builder b output the count (narwhals always adds it when it needs it for the unbiasing) *)
+Definition count_present (b : builder) : bool :=
+  match b with Narwhals => r_has_count q || has_covar q | _ => r_has_count q end.
+
+Theorem C01_plan_denotes_exact_statistics b :
+  exists F, run_plan (plan_of_spec b q g) tbl = map F (reps g tbl) /\
+            forall rep, In rep (reps g tbl) -> (2 <= length (part g rep tbl))%nat ->
+                        exact_for_gen q g tbl (count_present b) rep (F rep).
+Proof.
+  destruct b; cbn [plan_of_spec count_present].
+  - destruct (Bool.bool_dec (has_covar q) true) as [Hc|Hc]; [|apply Bool.not_true_is_false in Hc].
+    + edestruct (nw_denotes_covar q g tbl) as [F [H1 H2]]; try eassumption.
+      exists F. split; [exact H1|]. intros rep Hr Hl. apply H2; assumption.
+    + edestruct (nw_denotes_plain q g tbl) as [F [H1 H2]]; try eassumption.
+      exists F. split; [exact H1|]. intros rep Hr _. apply H2. exact Hr.
+  - edestruct (ibis_native_denotes q g tbl) as [F [H1 H2]]; try eassumption.
+    exists F. split; [exact H1|]. intros rep Hr _. apply H2. exact Hr.
+  - edestruct (ibis_fallback_denotes q g tbl) as [F [H1 H2]]; try eassumption.
+    exists F. split; [exact H1|]. intros rep Hr _. apply H2. exact Hr.
+Qed.
+End Denotation.
+
+(* one result row per variant: every row's variant is represented, representatives are in pairwise different groups *)
+Theorem C01_one_row_per_variant g tbl :
+  (forall r, In r tbl -> exists rep, In rep (reps g tbl) /\ same_group g rep r = true) /\
+  ForallOrdPairs (fun a b => same_group g a b = false) (reps g tbl).
+Proof. split; [intros r; apply reps_cover | apply reps_distinct]. Qed.
 
 (* narwhals plan:  mean(demean a * demean b) / (1 - 1/_count)  over the group *)
 Theorem C01_narwhals_plan_is_unbiased_cov f g l : (2 <= length l)%nat ->
@@ -56,3 +96,5 @@ Print Assumptions C01_population_variance_would_differ.
 Print Assumptions C01_demeaned_values_are_offset_free.
 Print Assumptions C01_statistics_are_offset_free.
 Print Assumptions C01_other_variants_irrelevant.
+Print Assumptions C01_plan_denotes_exact_statistics.
+Print Assumptions C01_one_row_per_variant.
